@@ -168,14 +168,20 @@ def phaseOf : StartPhase → CompPhase
   | .starting => .starting
   | _ => .preparing
 
+/-- The keys a factory's product is stored under when it is generated: every (type, name) pair the factory
+was registered for that is still free (C04_generates_all_types), in registration order. -/
+def SSt.genKeys (s : SSt) (fid : Nat) : List Key :=
+  ((s.fac.filter (fun p => p.2 == fid)).map (·.1)).filter (fun k' => !acontains k' s.res)
+
 /-- Look a key up in the surrounding context during start-up: static table first, then
-factories (the product is generated once and cached, see C04). -/
+factories (the product is generated once, stored under all the free pairs of its factory, and cached,
+see C04). -/
 def SSt.lookup (s : SSt) (k : Key) : Option (Val × SSt) :=
   match alookup k s.res with
   | some v => some (v, s)
   | none =>
     match alookup k s.fac with
-    | some fid => some (.gen 0 fid 0, { s with res := s.res ++ [(k, .gen 0 fid 0)] })
+    | some fid => some (.gen 0 fid 0, { s with res := s.res ++ (s.genKeys fid).map (fun k' => (k', .gen 0 fid 0)) })
     | none => none
 
 /-- Enabledness and effect of a label. -/
